@@ -33,7 +33,8 @@ def _is_std(name):
 
 
 def last(name):
-    return name.split("::")[-1] if name else ""
+    from .names import stdseg
+    return stdseg(name)
 
 
 def alen_iter(e, prog):
@@ -42,7 +43,7 @@ def alen_iter(e, prog):
     if e[0] == "call":
         name, args = e[1], e[2]
         l = last(name)
-        if not _is_std(name) and l in KNOWN_ADAPTORS:
+        if not _is_std(name) and name.split("::")[-1] in KNOWN_ADAPTORS:
             # a function of THIS crate that merely carries the name of a std adaptor (an extension trait's `iter`, a wrapper's `take`) yields
             # whatever it likes
             return ("Unknown", "%s is not the std function of that name" % name)
